@@ -367,7 +367,7 @@ def term(case, o):
                       "(OEq %s %s)" % (q.boolean(o["eq"]), q.boolean(o["ne"])))
     if k == "mime":
         r = "(Ok %s)" % g_ct(o["ok"]) if "ok" in o else "(Raised %s)" % o["raised"]
-        return q.pair("(IMime %s)" % g_ct(case["ct"]), "(OMime %s)" % r)
+        return q.pair("(IMime %s)" % g_ct(case["ct"]), "(OMime %s %s)" % (g_ct(case["ct"]), r))
     raise AssertionError(k)
 
 
@@ -386,8 +386,9 @@ def perturb(case, o):
         o["ra"] = not o["ra"]
     elif k == "eq":
         o["eq"] = not o["eq"]
-    elif k == "mime":
-        o = {"ok": ["perturbed", "x", []]}
+    elif k == "mime":       # compared by "did it come back": flip that
+        ct = case["ct"]
+        o = {"ok": ["perturbed", "x", []]} if wf_ct(ct) else {"ok": [ct[0], ct[1], sorted(ct[2])]}
     return o
 
 
@@ -833,8 +834,12 @@ def shrink(case):
             yield dict(c, data=s)
     elif k in ("reader", "snap"):
         for f in ("data0", "data1"):
+            if len(case[f]) > 3:
+                yield dict(c, **{f: case[f][:len(case[f]) // 2]})
             if case[f]:
                 yield dict(c, **{f: case[f][:-1]})
+        if case["chunk"] > 2:
+            yield dict(c, chunk=2)
         for f in ("pos0", "pos1"):
             if case[f]:
                 yield dict(c, **{f: 0})
